@@ -464,7 +464,8 @@ Definition step (cfg : config) (s : state) (c : call) : res :=
   | BuildFinished =>
     let '(p1, o1) := lp_lock cfg p false in
     let '(p2, o2) := lp_newline p1 [] in
-    ok_of s cn p2 (o1 ++ o2)
+    (* total_edges_ = 0: the same Status serves the next build of this invocation (manifest regeneration first) *)
+    ok_of s (mkCn 0 (n_started cn) (n_finished cn) (n_running cn)) p2 (o1 ++ o2)
   | ConsoleLock b => let '(p1, o1) := lp_lock cfg p b in ok_of s cn p1 o1
   | NewLine => let '(p1, o1) := lp_newline p [] in ok_of s cn p1 o1
   | Info m => ok_of s cn p (l_ninja ++ cstr m ++ [b_lf])
